@@ -227,6 +227,7 @@ func checkC01(rc *RunCtx) *Report {
 			out.Numbers["states"] += int64(x.States)
 			out.Numbers["transitions"] += int64(x.Transitions)
 			out.Numbers["split_steps"] += int64(x.Splits)
+			out.Numbers["map_order_deviations"] += int64(x.MapDeviations)
 			out.Numbers["idle_states"] += int64(x.IdleStates)
 			out.Numbers["oracle_evaluations"] += int64(evals)
 			out.Numbers["decided_transactions_seen"] += int64(decided)
